@@ -32,6 +32,9 @@ type SelCase struct {
 	Files []string `json:"files"`
 	Inc   []string `json:"include"`
 	Exc   []string `json:"exclude"`
+	// Others: further watchers defined in the same file (not run): the same include patterns, other excludes.
+	// What they select is their business; the watcher that runs must observe its own selection.
+	Others [][]string `json:"other_watchers_excludes,omitempty"`
 }
 
 func (c SelCase) canon() string { b, _ := json.Marshal(c); return string(b) }
@@ -190,6 +193,12 @@ func runSel(c SelCase, dir string) error {
 		{K: "tasks", V: gen.Map{{K: "t", V: gen.Map{{K: "command", V: "true"}}}}},
 		{K: "watchers", V: gen.Map{{K: "w", V: gen.Map{{K: "watch", V: toList(c.Inc)}, {K: "exclude", V: toList(c.Exc)}, {K: "task", V: "t"}}}}},
 	}
+	for i, exc := range c.Others {
+		ws, _ := cfg.Get("watchers")
+		// names on both sides of "w" in any ordering of the names
+		name := []string{"a-other", "x-other", "w2", "W"}[i%4]
+		cfg = cfg.Set("watchers", ws.(gen.Map).Set(name, gen.Map{{K: "watch", V: toList(c.Inc)}, {K: "exclude", V: toList(exc)}, {K: "task", V: "t"}}))
+	}
 	os.WriteFile(filepath.Join(tree, "w.yaml"), []byte(gen.YAML(cfg)), 0o644)
 	all := append(append([]string{"w.yaml"}, c.Dirs...), c.Files...)
 	// the process is stopped once its start-up lines are out: it never ends by itself
@@ -301,6 +310,13 @@ func TestSelect(t *testing.T) {
 		for i := rapid.IntRange(0, 2).Draw(rt, "nexc"); i > 0; i-- {
 			c.Exc = append(c.Exc, pat())
 		}
+		for i := rapid.IntRange(0, 3).Draw(rt, "other-watchers"); i > 1; i-- {
+			var exc []string
+			for j := rapid.IntRange(0, 2).Draw(rt, "nexc-other"); j > 0; j-- {
+				exc = append(exc, pat())
+			}
+			c.Others = append(c.Others, exc)
+		}
 		k++
 		dir := filepath.Join(root, fmt.Sprint("s", k))
 		defer os.RemoveAll(dir)
@@ -314,7 +330,7 @@ func TestSelect(t *testing.T) {
 			}
 		}
 		wild := strings.Contains(strings.Join(c.Inc, " ")+strings.Join(c.Exc, " "), "**") || strings.Contains(strings.Join(c.Inc, " "), "?")
-		cls := []string{fmt.Sprintf("selected=%d", min(nsel, 5)), fmt.Sprintf("removed-by-exclude=%d", min(nexcl, 3))}
+		cls := []string{fmt.Sprintf("selected=%d", min(nsel, 5)), fmt.Sprintf("removed-by-exclude=%d", min(nexcl, 3)), fmt.Sprintf("other-watchers-in-file=%d", len(c.Others))}
 		drv.Eval(cls...)
 		if nsel >= 1 && nexcl >= 1 && wild {
 			drv.NonTrivial(c.canon())
